@@ -2555,7 +2555,8 @@ func partialLineAtEOF(r *an.Run, rule string) {
 		if strings.Contains(an.FuncPkgPath(f), "/tools") {
 			continue
 		}
-		for _, c := range an.CallsTo(f, "(*bufio.Reader).ReadString", "(*bufio.Reader).ReadBytes", "(*bufio.Reader).ReadLine") {
+		// ReadLine is not one of them: it "either returns a non-nil line or it returns an error, never both"
+		for _, c := range an.CallsTo(f, "(*bufio.Reader).ReadString", "(*bufio.Reader).ReadBytes") {
 			call, ok := c.(*ssa.Call)
 			if !ok {
 				continue
@@ -2610,7 +2611,7 @@ func partialLineAtEOF(r *an.Run, rule string) {
 		}
 	}
 	r.Count("ReadString-style calls", n)
-	r.Pass("readstring-sites", 0, "%d (*bufio.Reader).ReadString / ReadBytes / ReadLine call(s) in the module", n)
+	r.Pass("readstring-sites", 0, "%d (*bufio.Reader).ReadString / ReadBytes call(s) in the module", n)
 }
 
 // ---------------------------------------------------------------------------
